@@ -2,6 +2,8 @@
 import Mathlib.Tactic
 import Mathlib.Algebra.Star.Basic
 import Mathlib.Algebra.BigOperators.Group.List.Basic
+import Mathlib.Algebra.BigOperators.Group.Finset.Basic
+import Mathlib.Algebra.BigOperators.Intervals
 import NumqiModel.Manifold
 
 namespace Numqi.Manifold.ABk
@@ -107,5 +109,234 @@ theorem embed0_kron (m : Nat) (hm : 0 < m) (H : Nat → Nat → R) (a b q q' : N
   have d1 : (a * m + q) / m = a := by rw [Nat.mul_comm, Nat.mul_add_div hm, Nat.div_eq_of_lt hq, Nat.add_zero]
   have d2 : (b * m + q') / m = b := by rw [Nat.mul_comm, Nat.mul_add_div hm, Nat.div_eq_of_lt hq', Nat.add_zero]
   rw [e1, e2, d1, d2]
+
+/-! ### `permIndex` is the exchange of two base-`dimB` digits; the two-local sum is invariant under it -/
+
+/-- value of the digit string `e 0 … e (k-1)` (most significant first) in base `B` -/
+def dval (B k : Nat) (e : Nat → Nat) : Nat := ((List.range k).map fun q => e q * B ^ (k - 1 - q)).sum
+
+theorem dval_succ (B k : Nat) (e : Nat → Nat) : dval B (k + 1) e = e 0 * B ^ k + dval B k (fun q => e (q + 1)) := by
+  unfold dval
+  rw [List.range_succ_eq_map, List.map_cons, List.sum_cons, List.map_map]
+  congr 1
+  congr 1
+  apply List.map_congr_left
+  intro q _
+  simp only [Function.comp, Nat.succ_eq_add_one]
+  congr 2
+  omega
+
+theorem dval_lt (B : Nat) (k : Nat) (e : Nat → Nat) (he : ∀ q, q < k → e q < B) : dval B k e < B ^ k := by
+  induction k generalizing e with
+  | zero => simp [dval]
+  | succ k ih =>
+    rw [dval_succ]
+    have h1 := ih (fun q => e (q + 1)) (fun q hq => he (q + 1) (by omega))
+    have h2 : e 0 + 1 ≤ B := he 0 (by omega)
+    calc e 0 * B ^ k + dval B k (fun q => e (q + 1)) < e 0 * B ^ k + B ^ k := by omega
+      _ = (e 0 + 1) * B ^ k := by ring
+      _ ≤ B * B ^ k := Nat.mul_le_mul_right _ h2
+      _ = B ^ (k + 1) := by ring
+
+/-- reading the digits back -/
+theorem dval_div (B k a : Nat) (e : Nat → Nat) (he : ∀ q, q < k → e q < B) : (a * B ^ k + dval B k e) / B ^ k = a := by
+  have hlt := dval_lt B k e he
+  have hpos : 0 < B ^ k := by omega
+  rw [Nat.mul_comm, Nat.mul_add_div hpos, Nat.div_eq_of_lt hlt, Nat.add_zero]
+
+theorem dval_digit (B k a : Nat) (e : Nat → Nat) (he : ∀ q, q < k → e q < B) (q : Nat) (hq : q < k) :
+    (a * B ^ k + dval B k e) / B ^ (k - 1 - q) % B = e q := by
+  induction k generalizing a e q with
+  | zero => omega
+  | succ k ih =>
+    rw [dval_succ]
+    have e1 : a * B ^ (k + 1) + (e 0 * B ^ k + dval B k fun q => e (q + 1)) = (a * B + e 0) * B ^ k + dval B k (fun q => e (q + 1)) := by ring
+    rw [e1]
+    have he' : ∀ q, q < k → e (q + 1) < B := fun q hq => he (q + 1) (by omega)
+    cases q with
+    | zero =>
+      simp only [Nat.add_sub_cancel, Nat.sub_zero]
+      rw [dval_div B k _ _ he']
+      have : e 0 < B := he 0 (by omega)
+      rw [Nat.mul_comm a B, Nat.mul_add_mod, Nat.mod_eq_of_lt this]
+    | succ q =>
+      have : k + 1 - 1 - (q + 1) = k - 1 - q := by omega
+      rw [this]
+      exact ih (a * B + e 0) (fun q => e (q + 1)) he' q (by omega)
+
+/-- a number is the value of its own digits -/
+theorem dval_self (B k r : Nat) : r / B ^ k * B ^ k + dval B k (fun q => r / B ^ (k - 1 - q) % B) = r := by
+  induction k generalizing r with
+  | zero => simp [dval]
+  | succ k ih =>
+    rw [dval_succ]
+    simp only [Nat.add_sub_cancel, Nat.sub_zero]
+    have hfun : (fun q => r / B ^ (k - (q + 1)) % B) = fun q => r / B ^ (k - 1 - q) % B := by
+      funext q; congr 3; omega
+    rw [hfun]
+    have h1 := ih r
+    have h2 : r / B ^ (k + 1) * B ^ (k + 1) + r / B ^ k % B * B ^ k = r / B ^ k * B ^ k := by
+      have : r / B ^ (k + 1) = r / B ^ k / B := by rw [pow_succ, Nat.div_div_eq_div_mul]
+      rw [this, pow_succ]
+      have := Nat.div_add_mod (r / B ^ k) B
+      calc r / B ^ k / B * (B ^ k * B) + r / B ^ k % B * B ^ k = (B * (r / B ^ k / B) + r / B ^ k % B) * B ^ k := by ring
+        _ = r / B ^ k * B ^ k := by rw [this]
+    omega
+
+/-- digit of copy `B_q` (most significant first) and the exchange of two copies -/
+def digit (B k r q : Nat) : Nat := r / B ^ (k - 1 - q) % B
+def swapIdx (i j q : Nat) : Nat := if q = i then j else if q = j then i else q
+
+theorem swapIdx_swapIdx (i j q : Nat) : swapIdx i j (swapIdx i j q) = q := by
+  unfold swapIdx; split_ifs <;> omega
+theorem swapIdx_lt {i j q k : Nat} (hi : i < k) (hj : j < k) (hq : q < k) : swapIdx i j q < k := by
+  unfold swapIdx; split_ifs <;> omega
+
+/-- `permIndex` is: keep the `A` part, exchange digits `i` and `j` -/
+theorem permIndex_eq (B k i j r : Nat) :
+    permIndex B k i j r = r / B ^ k * B ^ k + dval B k (fun q => digit B k r (swapIdx i j q)) := rfl
+
+theorem digit_lt (B k r q : Nat) (hB : 0 < B) : digit B k r q < B := Nat.mod_lt _ hB
+
+theorem permIndex_div (B k i j r : Nat) (hB : 0 < B) : permIndex B k i j r / B ^ k = r / B ^ k := by
+  rw [permIndex_eq]; exact dval_div B k _ _ (fun q _ => digit_lt B k r _ hB)
+
+/-- **the digits of `permIndex … r` are the digits of `r` with positions `i`, `j` exchanged** -/
+theorem permIndex_digit (B k i j r q : Nat) (hB : 0 < B) (hq : q < k) :
+    digit B k (permIndex B k i j r) q = digit B k r (swapIdx i j q) := by
+  unfold digit
+  rw [permIndex_eq]
+  exact dval_digit B k _ _ (fun q _ => digit_lt B k r _ hB) q hq
+
+/-- it maps the index range `dimA · dimB^kext` into itself -/
+theorem permIndex_lt (dimA B k i j r : Nat) (hB : 0 < B) (hr : r < dimA * B ^ k) : permIndex B k i j r < dimA * B ^ k := by
+  have hpos : 0 < B ^ k := Nat.pos_of_ne_zero (by positivity)
+  have ha : r / B ^ k < dimA := by rw [Nat.div_lt_iff_lt_mul hpos]; exact hr
+  rw [permIndex_eq]
+  have := dval_lt B k (fun q => digit B k r (swapIdx i j q)) (fun q _ => digit_lt B k r _ hB)
+  calc r / B ^ k * B ^ k + dval B k _ < r / B ^ k * B ^ k + B ^ k := by omega
+    _ = (r / B ^ k + 1) * B ^ k := by ring
+    _ ≤ dimA * B ^ k := Nat.mul_le_mul_right _ ha
+
+/-- **the exchange of two `B` copies is an involution** -/
+theorem permIndex_involutive (B k i j r : Nat) (hB : 0 < B) (hi : i < k) (hj : j < k) :
+    permIndex B k i j (permIndex B k i j r) = r := by
+  rw [permIndex_eq (r := permIndex B k i j r), permIndex_div B k i j r hB]
+  have hd : dval B k (fun q => digit B k (permIndex B k i j r) (swapIdx i j q)) = dval B k (fun q => digit B k r q) := by
+    unfold dval
+    congr 1
+    apply List.map_congr_left
+    intro q hq
+    have hq' : q < k := List.mem_range.1 hq
+    show digit B k (permIndex B k i j r) (swapIdx i j q) * _ = digit B k r q * _
+    rw [permIndex_digit B k i j r _ hB (swapIdx_lt hi hj hq'), swapIdx_swapIdx]
+  rw [hd]
+  exact dval_self B k r
+
+
+/-- `H` acting on `A` and on copy `B_x`, identity on the other copies: the closed form of one term of `sumEmbed` -/
+def act (B k : Nat) (H : Nat → Nat → R) (x r c : Nat) : R :=
+  if ∀ p, p < k → p ≠ x → digit B k r p = digit B k c p then H (r / B ^ k * B + digit B k r x) (c / B ^ k * B + digit B k c x) else 0
+
+theorem div_pow_pred (B k N : Nat) (hk : 1 ≤ k) : N / B ^ (k - 1) = N / B ^ k * B + digit B k N 0 := by
+  unfold digit
+  obtain ⟨k, rfl⟩ : ∃ k', k = k' + 1 := ⟨k - 1, by omega⟩
+  simp only [Nat.add_sub_cancel, Nat.sub_zero]
+  rw [pow_succ, ← Nat.div_div_eq_div_mul, Nat.mul_comm]
+  exact (Nat.div_add_mod _ _).symm
+
+theorem mod_pow_pred (B k N : Nat) (hB : 0 < B) : N % B ^ (k - 1) = dval B (k - 1) (fun q => digit B k N (q + 1)) := by
+  have h := dval_self B (k - 1) N
+  have hfun : (fun q => N / B ^ (k - 1 - 1 - q) % B) = fun q => digit B k N (q + 1) := by
+    funext q; unfold digit; congr 3; omega
+  rw [hfun] at h
+  have hlt := dval_lt B (k - 1) (fun q => digit B k N (q + 1)) (fun q _ => digit_lt B k N _ hB)
+  conv_lhs => rw [← h]
+  rw [Nat.mul_comm, Nat.mul_add_mod, Nat.mod_eq_of_lt hlt]
+
+theorem dval_inj (B k : Nat) (e e' : Nat → Nat) (he : ∀ q, q < k → e q < B) (he' : ∀ q, q < k → e' q < B)
+    (h : dval B k e = dval B k e') : ∀ q, q < k → e q = e' q := by
+  intro q hq
+  have h1 := dval_digit B k 0 e he q hq
+  have h2 := dval_digit B k 0 e' he' q hq
+  rw [Nat.zero_mul, Nat.zero_add] at h1 h2
+  rw [← h1, ← h2, h]
+
+theorem dval_congr (B k : Nat) (e e' : Nat → Nat) (h : ∀ q, q < k → e q = e' q) : dval B k e = dval B k e' := by
+  unfold dval; congr 1; apply List.map_congr_left; intro q hq; rw [h q (List.mem_range.1 hq)]
+
+/-- **one term of `sumEmbed` is `H_AB` acting on `A` and on copy `B_x`** -/
+theorem embed0_permIndex (B k : Nat) (hB : 0 < B) (H : Nat → Nat → R) (x : Nat) (hx : x < k) (r c : Nat) :
+    embed0 (B ^ (k - 1)) H (permIndex B k 0 x r) (permIndex B k 0 x c) = act B k H x r c := by
+  have hk : 1 ≤ k := by omega
+  unfold embed0 act
+  rw [mod_pow_pred B k _ hB, mod_pow_pred B k _ hB, div_pow_pred B k _ hk, div_pow_pred B k _ hk,
+    permIndex_div B k 0 x r hB, permIndex_div B k 0 x c hB, permIndex_digit B k 0 x r 0 hB (by omega), permIndex_digit B k 0 x c 0 hB (by omega)]
+  have hs0 : swapIdx 0 x 0 = x := by simp [swapIdx]
+  rw [hs0]
+  have hiff : (dval B (k - 1) (fun q => digit B k (permIndex B k 0 x r) (q + 1)) = dval B (k - 1) (fun q => digit B k (permIndex B k 0 x c) (q + 1)))
+      ↔ ∀ p, p < k → p ≠ x → digit B k r p = digit B k c p := by
+    constructor
+    · intro h p hp hpx
+      have hinj := dval_inj B (k - 1) _ _ (fun q _ => digit_lt B k _ _ hB) (fun q _ => digit_lt B k _ _ hB) h
+      -- p = swapIdx 0 x (q+1) for q+1 = swapIdx 0 x p ≥ 1
+      have hq1 : 1 ≤ swapIdx 0 x p := by
+        unfold swapIdx; split_ifs <;> omega
+      have hqk : swapIdx 0 x p < k := swapIdx_lt (by omega) hx hp
+      have := hinj (swapIdx 0 x p - 1) (by omega)
+      simp only [Nat.sub_add_cancel hq1] at this
+      rw [permIndex_digit B k 0 x r _ hB hqk, permIndex_digit B k 0 x c _ hB hqk, swapIdx_swapIdx] at this
+      exact this
+    · intro h
+      apply dval_congr
+      intro q hq
+      have hqk : q + 1 < k := by omega
+      rw [permIndex_digit B k 0 x r _ hB hqk, permIndex_digit B k 0 x c _ hB hqk]
+      apply h _ (swapIdx_lt (by omega) hx hqk)
+      intro e; unfold swapIdx at e; split_ifs at e <;> omega
+  by_cases h : ∀ p, p < k → p ≠ x → digit B k r p = digit B k c p
+  · rw [if_pos (hiff.2 h), if_pos h]
+  · rw [if_neg (fun e => h (hiff.1 e)), if_neg h]
+
+theorem act_permIndex (B k : Nat) (hB : 0 < B) (H : Nat → Nat → R) (i j : Nat) (hi : i < k) (hj : j < k) (x : Nat) (hx : x < k) (r c : Nat) :
+    act B k H x (permIndex B k i j r) (permIndex B k i j c) = act B k H (swapIdx i j x) r c := by
+  unfold act
+  rw [permIndex_div B k i j r hB, permIndex_div B k i j c hB, permIndex_digit B k i j r x hB hx, permIndex_digit B k i j c x hB hx]
+  have hiff : (∀ p, p < k → p ≠ x → digit B k (permIndex B k i j r) p = digit B k (permIndex B k i j c) p)
+      ↔ ∀ p, p < k → p ≠ swapIdx i j x → digit B k r p = digit B k c p := by
+    constructor
+    · intro h p hp hne
+      have hpk := swapIdx_lt hi hj hp
+      have := h (swapIdx i j p) hpk (fun e => hne (by rw [← e, swapIdx_swapIdx]))
+      rwa [permIndex_digit B k i j r _ hB hpk, permIndex_digit B k i j c _ hB hpk, swapIdx_swapIdx] at this
+    · intro h p hp hne
+      rw [permIndex_digit B k i j r _ hB hp, permIndex_digit B k i j c _ hB hp]
+      exact h _ (swapIdx_lt hi hj hp) (fun e => hne (by rw [← swapIdx_swapIdx i j p, e, swapIdx_swapIdx]))
+  by_cases h : ∀ p, p < k → p ≠ swapIdx i j x → digit B k r p = digit B k c p
+  · rw [if_pos (hiff.2 h), if_pos h]
+  · rw [if_neg (fun e => h (hiff.1 e)), if_neg h]
+
+theorem list_range_sum (k : Nat) (f : Nat → R) : ((List.range k).map f).sum = ∑ x ∈ Finset.range k, f x := by
+  induction k with
+  | zero => simp
+  | succ k ih => rw [List.range_succ, List.map_append, List.sum_append, ih, Finset.sum_range_succ]; simp
+
+/-- `sumEmbed` is the sum over the copies of `H_AB` acting on `A ⊗ B_x` -/
+theorem sumEmbed_eq_act (I : R) (B k : Nat) (hB : 0 < B) (M : Nat → Nat → R) (r c : Nat) :
+    sumEmbed I B k M r c = ∑ x ∈ Finset.range k, act B k (toAB I M) x r c := by
+  unfold sumEmbed
+  rw [list_range_sum]
+  exact Finset.sum_congr rfl (fun x hx => embed0_permIndex B k hB _ x (Finset.mem_range.1 hx) r c)
+
+/-- **the two-local sum is invariant under the exchange of any two `B` copies** (the defining symmetry of the `k`-extension) -/
+theorem sumEmbed_permIndex (I : R) (B k : Nat) (hB : 0 < B) (M : Nat → Nat → R) (i j : Nat) (hi : i < k) (hj : j < k) (r c : Nat) :
+    sumEmbed I B k M (permIndex B k i j r) (permIndex B k i j c) = sumEmbed I B k M r c := by
+  rw [sumEmbed_eq_act I B k hB, sumEmbed_eq_act I B k hB]
+  refine Finset.sum_nbij' (swapIdx i j) (swapIdx i j) ?_ ?_ ?_ ?_ ?_
+  · intro x hx; exact Finset.mem_range.2 (swapIdx_lt hi hj (Finset.mem_range.1 hx))
+  · intro x hx; exact Finset.mem_range.2 (swapIdx_lt hi hj (Finset.mem_range.1 hx))
+  · intro x _; exact swapIdx_swapIdx i j x
+  · intro x _; exact swapIdx_swapIdx i j x
+  · intro x hx; exact act_permIndex B k hB _ i j hi hj x (Finset.mem_range.1 hx) r c
 
 end Numqi.Manifold.ABk
